@@ -508,6 +508,11 @@ def r11(ctx, rep):
     rep.rule("C10.R11", "name resolution retries with shorter paths only as far as the module path it prepended itself: the qualifier the user wrote is never stripped", floor=1)
     syn = ctx.syn
     f = syn.fn("Resolver::resolve_ident", crate="prqlc")
+    # role anchor: the function of the resolver that prepends a path and strips it again (resolve_ident itself or a helper it calls)
+    cands = [g for g in syn.fns if g["crate"] == "prqlc" and g["file"] == f["file"] and "body" in g
+             and any(n.get("k") == "mcall" and n["m"] == "prepend" for n in walk(g["body"])) and any(n.get("k") == "mcall" and n["m"] == "pop_front" for n in walk(g["body"]))]
+    if len(cands) == 1:
+        f = cands[0]
     pre = [show(n["a"][0], maxdepth=6) for n in walk(f["body"]) if n.get("k") == "mcall" and n["m"] == "prepend" and n["a"]]
     pre = [re.sub(r"\.clone\(\)$", "", x) for x in pre]
     loops = [n for n in walk(f["body"]) if n.get("k") == "for" and any(x.get("k") == "mcall" and x["m"] == "pop_front" for x in walk(n["body"]))]
